@@ -56,6 +56,11 @@ EntTxMarks(s, ev, t, ok) ==
   \cup If(ok /\ AnyMsg(ev, LAMBDA m : m.t = "Decide" /\ PoExists(s, m.id) /\ FormerDecider(s, PoOf(s, m.id))), "decide:after-signer-change")
   \cup If(AnyMsg(ev, LAMBDA m : m.t = "Decide" /\ PoExists(s, m.id) /\ PoOf(s, m.id).st = "raised"
                                /\ \E j \in DOMAIN PoOf(s, m.id).dec : PoOf(s, m.id).dec[j].s = m.signer), "decide:twice")
+  \cup If(AnyMsg(ev, LAMBDA m : m.t = "Decide" /\ m.signer \in s.aux.exsig /\ PoExists(s, m.id) /\ PoOf(s, m.id).st = "raised"
+                               /\ ~\E j \in DOMAIN PoOf(s, m.id).dec : PoOf(s, m.id).dec[j].s = m.signer), "decide:by-removed-signer")
+  \cup If(AnyMsg(ev, LAMBDA m : m.t = "Whitelist" /\ m.signer \in s.aux.exsig /\ m.addr \in DOMAIN s.ent.wl
+                               /\ (m.act = "add") = ~s.ent.wl[m.addr]), "whitelist:by-removed-signer")
+  \cup If(ok /\ AnyMsg(ev, LAMBDA m : m.t \in {"Decide", "Whitelist"} /\ ~Contains(s.ent.p.signers, m.signer)), "ent:accepted-from-non-signer")
   \cup If(AnyMsg(ev, LAMBDA m : m.t = "Decide" /\ PoExists(s, m.id) /\ PoOf(s, m.id).st # "raised" /\ IsSigner(s, m.signer)), "decide:on-closed")
   \cup If(AnyMsg(ev, LAMBDA m : m.t = "Raise" /\ m.pur \in DOMAIN s.ent.wl /\ ~s.ent.wl[m.pur]
                                /\ \E i \in DOMAIN s.ent.po : s.ent.po[i].pur = m.pur), "raise:after-delisting")
@@ -84,6 +89,13 @@ FeeTxMarks(s, ev, t, ok) ==
      \cup If(NestedRegistryOps(tx.msgs), "exec:nested-registry-op")
      \cup If(HasMsg(ev, {"Send"}) /\ AnyMsg(ev, LAMBDA m : m.t = "Send" /\ m.to \in {"ent", "stream"}), "send:to-escrow")
      \cup If(reg /\ Len(tx.msgs) > 1 /\ ~ok /\ unlocked, "multi:later-message-fails-after-unlock")
+     \cup If(tx.granter # "" /\ reg /\ lk > 0 /\ unlocked, "feegrant:registry-tx-of-locked-holder-paid-by-granter")
+     \cup If(tx.granter # "" /\ reg /\ lk = 0 /\ ok, "feegrant:registry-tx-paid-by-granter")
+     \cup If(tx.granter # "" /\ ~reg /\ ok, "feegrant:other-tx-paid-by-granter")
+     \cup If(tx.granter # "" /\ ~Has(s.fgrants, FGrantKey(tx.granter, p)), "feegrant:no-allowance")
+     \cup If(tx.granter # "" /\ Has(s.fgrants, FGrantKey(tx.granter, p)) /\ Spendable(s, tx.granter, d) < f, "feegrant:granter-cannot-pay")
+     \cup If(tx.granter # "" /\ Has(s.fgrants, FGrantKey(tx.granter, p)) /\ reg /\ known /\ Spendable(s, p, d) + lk < f, "feegrant:payer-cannot-cover-though-granter-pays")
+     \cup If(ok /\ HasMsg(ev, {"FRevoke"}), "feegrant:revoked")
 
 RegTxMarks(s, ev, t, ok) ==
   LET ChOk(k, m) == ChExists(s, k, m.id)
@@ -105,6 +117,10 @@ RegTxMarks(s, ev, t, ok) ==
      \cup If(AnyMsg(ev, LAMBDA m : IsBuy(m) /\ ChOk(KOf(m), m) /\ C(m).owner = m.owner /\ C(m).limit + m.n > s[KOf(m)].p.max /\ m.n < 500000000), "buy:over-max")
      \cup If(AnyMsg(ev, LAMBDA m : IsBuy(m) /\ ChOk(KOf(m), m) /\ C(m).owner = m.owner /\ m.n >= 500000000), "buy:huge")
      \cup If(AnyMsg(ev, LAMBDA m : IsBuy(m) /\ ChOk(KOf(m), m) /\ C(m).limit > s[KOf(m)].p.max), "buy:limit-above-lowered-max")
+     \cup If(NestedRegistryOps(ev.msgs) /\ AnyMsg(ev, LAMBDA m : IsBuy(m) /\ ChOk(KOf(m), m) /\ C(m).owner = m.owner /\ C(m).limit > s[KOf(m)].p.max),
+             "buy:nested-with-limit-above-lowered-max")
+     \cup If(NestedRegistryOps(ev.msgs) /\ AnyMsg(ev, LAMBDA m : IsBuy(m) /\ ChOk(KOf(m), m) /\ C(m).owner = m.owner /\ C(m).limit + m.n > s[KOf(m)].p.max),
+             "buy:nested-over-max")
      \cup If(~ok /\ Len(ev.msgs) > 1 /\ ev.msgs[1].t \in {"WReg", "BReg"} /\ t.wrk.next = s.wrk.next /\ t.bcn.next = s.bcn.next, "reg:registration-rolled-back")
      \cup If(Cardinality({ j \in DOMAIN MsgsOf(ev) : IsRec(MsgsOf(ev)[j]) }) >= 2 /\ ok, "rec:two-in-one-tx")
      \cup If(Cardinality({ j \in DOMAIN MsgsOf(ev) : IsBuy(MsgsOf(ev)[j]) }) >= 2, "buy:two-in-one-tx")
@@ -132,6 +148,10 @@ StrTxMarks(s, ev, t, ok) ==
      \cup If(ok /\ AnyMsg(ev, LAMBDA m : m.t = "STopUp" /\ HasS(m) /\ X(m).dep > 0 /\ s.time < X(m).dzt /\ s.time - X(m).last >= 1000), "topup:live-with-elapsed-seconds")
      \cup If(ok /\ AnyMsg(ev, LAMBDA m : m.t = "STopUp" /\ HasS(m) /\ X(m).dep > 0 /\ s.time >= X(m).dzt), "topup:expired-with-remainder")
      \cup If(ok /\ AnyMsg(ev, LAMBDA m : m.t = "STopUp" /\ HasS(m) /\ X(m).dep = 0), "topup:drained")
+     \cup If(ok /\ AnyMsg(ev, LAMBDA m : m.t = "STopUp" /\ HasS(m) /\ X(m).dep = 0 /\ X(m).dzt = s.time /\ X(m).last < s.time),
+             "topup:drained-with-zero-time-equal-to-now")
+     \cup If(ok /\ AnyMsg(ev, LAMBDA m : m.t = "STopUp" /\ HasS(m) /\ X(m).dep > 0 /\ X(m).dzt = s.time), "topup:zero-time-equal-to-now")
+     \cup If(ok /\ AnyMsg(ev, LAMBDA m : m.t = "SClaim" /\ HasS(m) /\ X(m).dep > 0 /\ X(m).dzt = s.time), "claim:zero-time-equal-to-now")
      \cup UNION { If(ok /\ AnyMsg(ev, LAMBDA m : m.t = T /\ HasS(m) /\ X(m).dep > 0 /\ s.time < X(m).dzt /\ s.time \div 1000 = X(m).dzt \div 1000),
                       SameSecondLabel(T, "before"))
                    \cup If(ok /\ AnyMsg(ev, LAMBDA m : m.t = T /\ HasS(m) /\ X(m).dep > 0 /\ s.time > X(m).dzt /\ s.time \div 1000 = X(m).dzt \div 1000),
@@ -217,6 +237,10 @@ AllLabels == <<
   "ghost:registry-write-by-rolled-back-owner", "ghost:owner-write-on-reused-id", "ghost:registration-reuses-rolled-back-id",
   "ghost:decide-on-rolled-back-order-id", "ghost:raise-reuses-rolled-back-id", "ghost:stream-op-on-rolled-back-pair",
   "ghostparams:tally-outcome-would-differ", "ghostparams:registry-op", "ghostparams:stream-release", "ghostparams:decision",
+  "feegrant:registry-tx-of-locked-holder-paid-by-granter", "feegrant:registry-tx-paid-by-granter", "feegrant:other-tx-paid-by-granter",
+  "feegrant:no-allowance", "feegrant:granter-cannot-pay", "feegrant:payer-cannot-cover-though-granter-pays", "feegrant:revoked",
+  "decide:by-removed-signer", "whitelist:by-removed-signer", "ent:accepted-from-non-signer", "buy:nested-with-limit-above-lowered-max",
+  "buy:nested-over-max", "topup:drained-with-zero-time-equal-to-now", "topup:zero-time-equal-to-now", "claim:zero-time-equal-to-now",
   "gov:proposal-rolled-back-after-first-message", "complete:two-same-purchaser",
   "topup:in-the-second-of-the-zero-time-before-it", "topup:in-the-second-of-the-zero-time-after-it",
   "claim:in-the-second-of-the-zero-time-before-it", "claim:in-the-second-of-the-zero-time-after-it",
